@@ -19,7 +19,7 @@ import os
 import re
 import common as C
 
-CLS = [None, "quoted_space", "quoted_escape"] + ["retired_%d" % k for k in range(3, 16)]
+CLS = [None] + ["retired_%d" % k for k in range(1, 16)]      # no finding class is left
 
 KINDS = {"CREATE": "CCreate", "DELETE": "CDelete", "RENAME": "CRename", "SUBSCRIBE": "CSubscribe",
          "UNSUBSCRIBE": "CUnsubscribe", "LIST": "CList", "LSUB": "CLsub", "STATUS": "CStatus",
@@ -33,7 +33,10 @@ CLEAN = ["Work", "Work/sub", "Work/sub/deep/er", "archive", "archive/2024", "b",
          # an ancestor's name recurring inside a descendant's path: whole later segment, tail of a
          # segment, prefix of a sibling segment (a child's new name must be computed from the PREFIX only)
          "Work/Work/reports", "Work/MyWork/notes", "Work/Workshop", "Work/Workshop/deep", "Workshop/x",
-         "b/b/c", "b/xb/c", "b/bc", "archive/archive/archive"]
+         "b/b/c", "b/xb/c", "b/bc", "archive/archive/archive",
+         # names only a quoted string can carry (tokenizer fix 2599345): blanks, double quotes, backslashes
+         "My Folder", "My Folder/sub folder", "q\"uote", "back\\slash", "x y/z w", " lead", "trail ", "two  blanks",
+         "a\\", "\"q\"", "a \\\" b", "Work/My Work/notes", "tab\there"]
 # names built to collide
 DIRTY = ["a_b", "axb", "axb/child", "a_b/k", "foo", "FOO", "FOO/kid", "foo/kid", "a%", "ab", "abc/d",
          "My Folder", "My", "q\"uote", "back\\slash", "Inbox/sub", "inbox", "INBOX", "Inbox", "sent", "Sent",
